@@ -185,6 +185,10 @@ def annotate_fn(fs, text, negctl=False):
 
     # --- proof blocks (anchored on lines of the body)
     for pi, pr in enumerate(fs.proofs):
+        if pr.get('at') == 'body_start':
+            block = ''.join('\n        %s %sproof%d' % (ln, TAG + fs.name + ':', pi) for ln in pr['text'].strip('\n').split('\n'))
+            inserts.append((open_b + 1, block))
+            continue
         rx = pr.get('after') or pr.get('before')
         hits = [m for m in re.finditer(rx, text[open_b:close_b], re.M)]
         nth = pr.get('nth', 0)
